@@ -57,6 +57,11 @@ func writeHeaders(w http.ResponseWriter, headers map[string][]string) {
 			w.Header().Add(key, value)
 		}
 	}
+
+	// configured headers that do not name a Content-Type must not drop the default one
+	if w.Header().Get("Content-Type") == "" {
+		w.Header().Set("Content-Type", "application/json")
+	}
 }
 
 func mergeHeaders(baseHeaders, additionalHeaders map[string][]string) map[string][]string {
